@@ -83,6 +83,9 @@ def reach (next : Int → List Int) : Nat → List Int → List Int → List Int
 def descendants (g : G) (l : Int) : List Int := (reach (succsOf g) g.length [l] []).filter (· != l)
 def ancestors (g : G) (l : Int) : List Int := (reach (predsOf g) g.length [l] []).filter (· != l)
 
+/-- `network.has_directed_cycle()`: some node is joined to itself by a non-empty path of successor edges (a self-loop counts). -/
+def hasCycle (g : G) : Bool := g.any fun n => (reach (succsOf g) g.length [n.label] []).contains n.label
+
 /-! ### operations as data (for operation sequences) -/
 
 inductive Op where
